@@ -72,6 +72,8 @@ K1b(C, st, x, a, q) ==  \* rounding lands on -position: the budget test is skipp
   /\ q = RNeg(st.pos[x]) /\ ~IsZero(q) /\ RAdd(a, SecVal(C, st, x)) # Zero
 K1c(C, st, x, a, sh) ==  \* the Newton step overshoots to q = 0 and the loop exits
   /\ sh.exc = "none" /\ IsZero(sh.q) /\ ~IsZero(a)
+K1f(a, sh) ==  \* a positive amount answered by a sale (minimum fee charged on q + 1 = 0)
+  /\ sh.exc = "none" /\ RSign(a) = 1 /\ RSign(sh.q) = -1
 K1d(sh) == sh.exc = "bigger"
 K1e(sh) == sh.exc = "stuck"
 
@@ -90,5 +92,6 @@ KF_C05(C, st, x, a, q, raised) ==
       ELSE IF K1a(C, st, x, a) /\ IsZero(q) THEN "K1a"
       ELSE IF K1b(C, st, x, a, q) THEN "K1b"
       ELSE IF K1c(C, st, x, a, sh) THEN "K1c"
+      ELSE IF K1f(a, sh) THEN "K1f"
       ELSE "none"
 =============================================================================
